@@ -138,14 +138,15 @@ def compile_harness(src, variant="plain", out_name=None, extra_flags=(), repo=RE
         flags += ["-fsanitize=thread"]
     if variant == "cov":
         flags += ["--coverage"]
+    tmp = "%s.tmp%d" % (out, os.getpid())          # several checks may compile the same harness at once: private temporary, atomic move into place
     cmd = ["g++"] + flags + list(extra_flags) + srcs + ["-Wl,--whole-archive", os.path.join(bdir, "lib", "libWorldBuilder.a"),
-                                                        "-Wl,--no-whole-archive", "-o", out + ".tmp"]
+                                                        "-Wl,--no-whole-archive", "-o", tmp]
     if os.path.exists("/usr/lib/x86_64-linux-gnu/libz.so") or True:
         cmd += ["-lz"] if variant == "apps" else []
     r = subprocess.run(cmd, stdout=subprocess.PIPE, stderr=subprocess.STDOUT, text=True)
     if r.returncode != 0:
         raise RuntimeError("harness compile failed:\n" + r.stdout[-4000:])
-    os.replace(out + ".tmp", out)
+    os.replace(tmp, out)
     return out
 
 
